@@ -103,7 +103,7 @@ TB_LEX = TB_COMMON + [
     "std: str::trim_start_matches / trim_end_matches / split for &str patterns, slice indexing panics, char::is_whitespace (the 25 White_Space code points, compared exhaustively with std on every run), char::is_alphanumeric (range table dumped from std, Gen/Unicode.v; a Section variable in the theorems)",
 ]
 PROPS["C02"] = {
-    "props": [],
+    "props": ["Props/C02.v"],
     "run": ["Run/LexRun.v"],
     "tables": ["T2"],
     "n_quick": 360,
